@@ -5,6 +5,7 @@ from engine.astutil import U, calls, kwargs, single_defs, inline, walk_own, call
 from engine.cfg import CFG
 from engine.norm import Norm, parse_expr
 from engine.repo import AnalysisError
+from engine import builders as B
 from . import common, C14
 
 EXPLANATION = (
@@ -96,6 +97,152 @@ def candidate_chain(f, final_name):
     return root, filters, cond
 
 
+BATCH = "batch_plate_ids"
+
+
+def _peval(e, case, env):
+    """partial evaluation of a condition under an assumption on the batch id list: case in ('none', 'empty', 'nonempty').
+    Returns True / False / an AST"""
+    def val(x):
+        """the batch-list expression x denotes under the case: 'none' | 'empty' | 'batch' | None (unknown)"""
+        x = B.resolve(x, {k: v for k, v in env.items() if k != BATCH}) if not (isinstance(x, ast.Name) and x.id == BATCH) else x
+        if isinstance(x, ast.Name) and x.id == BATCH:
+            if BATCH in env and not (isinstance(env[BATCH], ast.Name)):
+                return val_expr(env[BATCH])
+            return {"none": "none", "empty": "empty", "nonempty": "batch"}[case]
+        return val_expr(x)
+
+    def val_expr(x):
+        t = U(x).replace(" ", "")
+        if t in ("[]", "()", "set()", "list()", "tuple()", "frozenset()"):
+            return "empty"
+        if t == "None":
+            return "none"
+        if isinstance(x, ast.IfExp):
+            c = ev(x.test)
+            if c is True:
+                return val(x.body)
+            if c is False:
+                return val(x.orelse)
+            return None
+        if isinstance(x, ast.BoolOp) and isinstance(x.op, ast.Or) and len(x.values) == 2:
+            a = val(x.values[0])
+            if a in ("none", "empty"):
+                return val(x.values[1])
+            return a
+        if isinstance(x, ast.Call) and U(x.func) in ("set", "list", "tuple", "frozenset") and len(x.args) == 1:
+            return val(x.args[0])
+        return None
+
+    def ev(t):
+        if isinstance(t, ast.Constant) and isinstance(t.value, bool):
+            return t.value
+        if isinstance(t, ast.UnaryOp) and isinstance(t.op, ast.Not):
+            v = ev(t.operand)
+            return (not v) if isinstance(v, bool) else ast.UnaryOp(op=ast.Not(), operand=v)
+        if isinstance(t, ast.BoolOp):
+            vals = []
+            for v in t.values:          # short-circuit: later operands are not evaluated once the result is decided
+                x = ev(v)
+                vals.append(x)
+                if (x is False and isinstance(t.op, ast.And)) or (x is True and isinstance(t.op, ast.Or)):
+                    break
+            if isinstance(t.op, ast.And):
+                if any(v is False for v in vals):
+                    return False
+                vals = [v for v in vals if v is not True]
+                return True if not vals else (vals[0] if len(vals) == 1 else ast.BoolOp(op=ast.And(), values=vals))
+            if any(v is True for v in vals):
+                return True
+            vals = [v for v in vals if v is not False]
+            return False if not vals else (vals[0] if len(vals) == 1 else ast.BoolOp(op=ast.Or(), values=vals))
+        if isinstance(t, ast.Compare) and len(t.ops) == 1:
+            op, l, r = t.ops[0], t.left, t.comparators[0]
+            if isinstance(op, (ast.Is, ast.IsNot)) and U(r) == "None":
+                v = val(l)
+                if v is not None:
+                    return (v == "none") == isinstance(op, ast.Is)
+            if isinstance(op, (ast.In, ast.NotIn)):
+                v = val(r)
+                if v == "empty":
+                    return isinstance(op, ast.NotIn)
+                if v == "batch":
+                    return ast.Compare(left=t.left, ops=[op], comparators=[ast.Name(id=BATCH, ctx=ast.Load())])
+                if v == "none":
+                    raise AnalysisError(f"membership test `{U(t)}` against None")
+            tt = U(t).replace(" ", "")
+            for pat, res in ((f"len({BATCH})>0", "nonempty"), (f"len({BATCH})!=0", "nonempty"), (f"len({BATCH})==0", "empty")):
+                if tt == pat and case != "none":
+                    return (case == res)
+            return t
+        v = val(t) if isinstance(t, (ast.Name, ast.IfExp)) else None
+        if v is not None and (isinstance(t, ast.Name) and (t.id == BATCH or t.id in env)):
+            return v == "batch"          # truthiness of the list
+        return t
+    return ev(e)
+
+
+def candidate_cases(ctx, f, stop_stmt, L):
+    """{case: (root, frozenset of normalised filters, sort keys)} for the list expression L evaluated just before stop_stmt,
+    under batch_plate_ids None / empty / non-empty"""
+    N = Norm(strict=False)
+    top = list(f.node.body)
+    idx = next((i for i, st in enumerate(top) if st is stop_stmt or stop_stmt in list(ast.walk(st))), None)
+    ctx.need(idx is not None, f"{f.site()}: anchor statement is not at the top level of the function")
+    pre = ast.FunctionDef(name="_pre", args=f.node.args, body=top[:idx] + [ast.Return(value=L)], decorator_list=[], lineno=0, col_offset=0)
+    try:
+        ps = B.paths(pre)
+    except B.Unsupported as e:
+        raise AnalysisError(f"{f.site()}: {e} - the candidate list is built outside the recognised collection idioms")
+    out = {}
+    for case in ("none", "empty", "nonempty"):
+        results = set()
+        for conds, ret, env, checks in ps:
+            feasible = True
+            # conditions are evaluated with the environment *before* any re-binding of the batch list on that path
+            for t, pol in conds:
+                v = _peval(t, case, {k: v for k, v in env.items() if k != BATCH})
+                if isinstance(v, bool) and v != pol:
+                    feasible = False
+                    break
+            if not feasible or ret is None:
+                continue
+            fl = B.flatten_filter(ret, env)
+            if fl is None:
+                raise AnalysisError(f"{f.site()}: `{U(L)}` is `{U(B.resolve(ret, env))[:80]}`, not a selection of the plate list")
+            root, cs, keys = fl
+            filt = set()
+            for c in cs:
+                v = _peval(c, case, env)
+                if v is True:
+                    continue
+                if v is False:
+                    filt.add(("false",))
+                    continue
+                b = N.b(v)
+                filt |= set(b[1]) if b[0] == "and" else {b}
+            results.add((U(root), frozenset(filt), tuple(sorted(str(k) for k in keys))))
+        if len(results) != 1:
+            raise AnalysisError(f"{f.site()}: the candidate list under batch={case} has {len(results)} different values over the paths")
+        out[case] = next(iter(results))
+    return out
+
+
+def check_candidates(ctx, rule, f, cases, label):
+    N = Norm(strict=False)
+    want_unobs = N.b(parse_expr("not P.is_observed"))
+    want_batch = N.b(parse_expr(f"P.plate_id not in {BATCH}"))
+    want = {"none": {want_unobs}, "empty": {want_unobs}, "nonempty": {want_unobs, want_batch}}
+    bad = []
+    for case, (root, filt, keys) in cases.items():
+        if root != "screen.plates" or set(filt) != want[case]:
+            extra = set(filt) ^ want[case]
+            bad.append(f"batch {case}: `{root}` under {len(filt)} filter(s), differing in {sorted(map(str, extra))[:2]}")
+    ctx.check(rule, f"{f.site()}::{label}", not bad,
+              "candidates = plates of the screen that are unobserved and (when a batch is given) not in the batch",
+              f"the candidate list is not exactly {{not plate.is_observed, plate.plate_id not in batch_plate_ids}} over screen.plates: {'; '.join(bad)}")
+
+
 def r1(ctx):
     f = ctx.fn("scoring.main.score_chunk")
     sp = [c for c in calls(f.node, name="np.array_split")]
@@ -107,17 +254,6 @@ def r1(ctx):
     ctx.need(isinstance(L, ast.Name), "score_chunk: the split list is not a local variable")
     ctx.check("R1", f"{f.site()}::split", ok_split, "chunk = np.array_split(L, n_chunks)[chunk_index]",
               f"the chunk is `{U(sub) if sub is not None else U(sp[0])}`, not np.array_split(L, n_chunks)[chunk_index]")
-    root, filters, cond = candidate_chain(f, L.id)
-    N = Norm(strict=False)
-    want_unobs = N.b(parse_expr("not P.is_observed"))
-    want_batch = N.b(parse_expr("P.plate_id not in batch_plate_ids"))
-    extra = filters - {want_unobs, want_batch}
-    ok = root == "screen.plates" and want_unobs in filters and want_batch in filters and not extra
-    ok = ok and cond.get(want_batch) in (None, "batch_plate_ids is not None", "batch_plate_ids") and cond.get(want_unobs) is None
-    ctx.check("R1", f"{f.site()}::candidate-filters", ok,
-              "candidates = plates of the screen that are unobserved and (when a batch is given) not in the batch",
-              f"the candidate list is `{root}` filtered by {len(filters)} condition(s) that are not exactly "
-              f"{{not plate.is_observed, plate.plate_id not in batch_plate_ids}} (extra/missing: {sorted(map(str, extra))[:2]})")
     # independence from chunk_index / rng
     deps = set()
     work = [L.id]
@@ -140,31 +276,69 @@ def r1(ctx):
     bad = deps & {"chunk_index", "rng", "<in-place shuffle>", "<in-place pop>", "<in-place remove>"}
     ctx.check("R1", f"{f.site()}::same-list-for-every-chunk", not bad, "the candidate list does not depend on chunk_index or the generator",
               f"the candidate list depends on {sorted(bad)}: different chunk indices would split different lists")
+    top_stmt = sp[0]
+    while par.get(top_stmt) is not None and par.get(top_stmt) is not f.node:
+        top_stmt = par[top_stmt]
+    cases = candidate_cases(ctx, f, top_stmt, L)
+    check_candidates(ctx, "R1", f, cases, "candidate-filters")
 
 
 def r2(ctx):
+    """the dict handed to the scorer, per case of the batch list: with a non-empty batch each chunk plate is keyed by its own
+    id and merged with the union of the batch plates, reduced to unique conditions; otherwise the chunk plates as they are"""
     f = ctx.fn("scoring.main.score_chunk")
-    st = [n for n in walk_own(f.node) if isinstance(n, ast.Assign) and isinstance(n.targets[0], ast.Subscript) and U(n.targets[0].value) == "plates_to_score"]
-    ctx.need(len(st) == 1, "score_chunk: plates_to_score[...] store not found")
+    sc = [c for c in calls(f.node) if isinstance(c.func, ast.Attribute) and c.func.attr == "score" and U(c.func.value) == f.params[0]]
+    ctx.need(len(sc) == 1, "score_chunk: scorer.score(...) call not found")
+    pl = kwargs(sc[0]).get("plates", sc[0].args[0] if sc[0].args else None)
+    ctx.need(pl is not None, "score_chunk: plates argument of scorer.score not found")
     par = enclosing_map(f.node)
-    lp = par.get(st[0])
-    ctx.need(isinstance(lp, ast.For), "score_chunk: conditioning loop not found")
-    pv = U(lp.target)
-    lenv = {n.targets[0].id: n.value for n in lp.body if isinstance(n, ast.Assign) and isinstance(n.targets[0], ast.Name)}
-    env = single_defs(f.node)
-    val = inline(st[0].value, lenv)
-    val = inline(val, {k: v for k, v in env.items() if k.startswith("previously_selected")}, depth=3)
-    want = f"filter_dataset_to_unique_treatments({pv}.combine(ScreenSubset.concat([plateforplateinscreen.platesifplate.plate_idinbatch_plate_ids])))"
-    ok = U(val).replace(" ", "") == want and U(st[0].targets[0].slice) == f"{pv}.plate_id"
-    ctx.check("R2", f"{f.site()}::conditioned-on-batch", ok,
+    top_stmt = sc[0]
+    while par.get(top_stmt) is not None and par.get(top_stmt) is not f.node:
+        top_stmt = par[top_stmt]
+    top = list(f.node.body)
+    idx = top.index(top_stmt)
+    pre = ast.FunctionDef(name="_pre", args=f.node.args, body=top[:idx] + [ast.Return(value=pl)], decorator_list=[], lineno=0, col_offset=0)
+    try:
+        ps = B.paths(pre)
+    except B.Unsupported as e:
+        raise AnalysisError(f"{f.site()}: {e} - the plates handed to the scorer are built outside the recognised collection idioms")
+    sp = [c for c in calls(f.node, name="np.array_split")]
+    chunk_names = set()
+    for n in walk_own(f.node):
+        if isinstance(n, ast.Assign) and sp and sp[0] in list(ast.walk(n.value)) and isinstance(n.targets[0], ast.Name):
+            chunk_names.add(n.targets[0].id)
+    ctx.need(len(chunk_names) == 1, "score_chunk: the chunk list is not bound to one local name")
+    chunk = next(iter(chunk_names))
+    want = {
+        True: f"{{_0.plate_id:filter_dataset_to_unique_treatments(_0.combine(ScreenSubset.concat([_1for_1inscreen.platesif_1.plate_idin{BATCH}])))for_0in{chunk}}}",
+        False: f"{{_0.plate_id:_0for_0in{chunk}}}",
+    }
+    got = {}
+    for case in ("none", "empty", "nonempty"):
+        vals = set()
+        for conds, ret, env, checks in ps:
+            feasible = True
+            for t, pol in conds:
+                v = _peval(t, case, {k: v for k, v in env.items() if k != BATCH})
+                if isinstance(v, bool) and v != pol:
+                    feasible = False
+                    break
+            if not feasible or ret is None:
+                continue
+            full = B.resolve(ret, env)
+            for _ in range(6):
+                full = B.subst(full, {k: v for k, v in env.items() if k not in (chunk, BATCH) and not isinstance(v, ast.Lambda)})
+            vals.add(B.text(full))
+        if len(vals) != 1:
+            raise AnalysisError(f"{f.site()}: the plates handed to the scorer under batch={case} have {len(vals)} different values over the paths")
+        got[case] = next(iter(vals))
+    ok_c = got["nonempty"] == want[True]
+    ctx.check("R2", f"{f.site()}::conditioned-on-batch", ok_c,
               "plates_to_score[plate.plate_id] = unique(plate.combine(concat(plates whose id is in the batch)))",
-              f"with a batch, a candidate is scored on `{U(val)[:120]}` under key `{U(st[0].targets[0].slice)}`")
-    # unconditioned arm
-    dc = [n for n in walk_own(f.node) if isinstance(n, ast.Assign) and U(n.targets[0]) == "plates_to_score" and isinstance(n.value, ast.DictComp)]
-    ok = len(dc) == 1 and U(dc[0].value.key) == f"{U(dc[0].value.generators[0].target)}.plate_id" and U(dc[0].value.value) == U(dc[0].value.generators[0].target) \
-        and not dc[0].value.generators[0].ifs and U(dc[0].value.generators[0].iter) == U(lp.iter)
-    ctx.check("R2", f"{f.site()}::unconditioned", ok, "without a batch each chunk plate is scored as is under its own id",
-              "without a batch the dict of plates to score is not {p.plate_id: p for p in chunk}")
+              f"with a batch, a candidate is scored on `{got['nonempty'][:160]}`")
+    ok_u = got["none"] == want[False] and got["empty"] == want[False]
+    ctx.check("R2", f"{f.site()}::unconditioned", ok_u, "without a batch each chunk plate is scored as is under its own id",
+              f"without a batch the dict of plates to score is `{got['none'][:120]}`, not {{p.plate_id: p for p in chunk}}")
 
 
 def r2b(ctx):
@@ -225,11 +399,13 @@ def r4(ctx):
         if isinstance(d.value, ast.Name):
             cand = d.value.id
     ctx.need(cand is not None, f"select_next_plate: `{elig}` is never the unfiltered candidate list")
-    root, filters, cond = candidate_chain(f, cand)
-    want = {N.b(parse_expr("not P.is_observed")), N.b(parse_expr("P.plate_id not in batch_plate_ids"))}
-    ctx.check("R4", f"{f.site()}::eligible-from-both-filters", root == "screen.plates" and filters == want,
-              "eligible plates derive from the screen's plates that are unobserved and not in the batch",
-              f"eligible plates derive from `{root}` under {len(filters)} filter(s), not exactly (unobserved, not in batch)")
+    dstmt = [d for d in defs if isinstance(d.value, ast.Name)][0]
+    par0 = enclosing_map(f.node)
+    top_stmt = dstmt
+    while par0.get(top_stmt) is not None and par0.get(top_stmt) is not f.node:
+        top_stmt = par0[top_stmt]
+    cases = candidate_cases(ctx, f, top_stmt, ast.Name(id=cand, ctx=ast.Load()))
+    check_candidates(ctx, "R4", f, cases, "eligible-from-both-filters")
     # None only when empty
     g = CFG(f.node)
     rn = [r for r in returns(f.node) if r.value is None or (isinstance(r.value, ast.Constant) and r.value.value is None)]
